@@ -285,7 +285,7 @@ func crashSite(log string) string {
 		}
 		if inFirst && strings.HasPrefix(l, "github.com/containerd/nri/pkg/") {
 			fn := l
-			if i := strings.Index(fn, "("); i > 0 {
+			if i := strings.LastIndex(fn, "("); i > 0 {
 				fn = fn[:i]
 			}
 			fn = strings.TrimPrefix(fn, "github.com/containerd/nri/pkg/")
